@@ -6,11 +6,11 @@ toolchain go1.23.5
 
 require (
 	github.com/biogo/hts v0.0.0
+	github.com/ulikunitz/xz v0.5.10
 	golang.org/x/tools v0.29.0
 )
 
 require (
-	github.com/ulikunitz/xz v0.5.10 // indirect
 	golang.org/x/mod v0.22.0 // indirect
 	golang.org/x/sync v0.10.0 // indirect
 )
